@@ -62,6 +62,17 @@ def job_fn(job):
         return dict(status='compile-raises', error=str(e))
     tally = decide.Tally()
     res = tvspec.validate(spec, c, tally, vectorized=job['vectorize'], plugin=plugin, t_sym=t_sym)
+    if job['backend'] == 'fortran':
+        # kinds of the module-level constants (invisible to the real-valued encoding): float64 was requested
+        from .. import f90smt
+        for nm, init, as_written, in_double in f90smt.kind_mismatches(c.src):
+            tally.obligations += 1
+            tally.sat += 1
+            tally.sat_confirmed += 1
+            res['violations'].append(dict(kind='fortran-constant-kind', constant=nm,
+                                          what=f"the emitted module declares `double precision :: {nm.upper()} = {init}`: the "
+                                               f"initialiser is a default-real (single precision) expression, so {nm.upper()} "
+                                               f"= {as_written!r} instead of {in_double!r} although float64 was requested"))
     # returned argument values in float64 (compared across backends by the parent)
     argvals = {}
     for k, a in zip(c.keys, c.args):
